@@ -480,6 +480,31 @@ func VerifH_C14_rerun() {
 	verifrt.Assert(len(a) == 0 && len(b) == 0, "running a prepared workflow leaves its dependency graph untouched")
 }
 
+// C14: a later run of one prepared workflow behaves like a first run also where earlier runs left their
+// mark on "no output is possible any more": the only output becomes impossible while an unrelated step
+// keeps running for ever, in the first run and again in the second - each run ends promptly by itself.
+func VerifH_C14_rerun_prompt() {
+	t := tWorkflow{
+		steps: []tStep{
+			{id: "a", fields: map[string]any{"input": verifStepInput(vx("input"))}, outcome: map[string]int{"deploy": 0, "start": 0}},
+			{id: "b", fields: map[string]any{"input": verifStepInput(vx("input"))}, outcome: map[string]int{"deploy": 0, "start": 0, "result": 3}},
+		},
+		outputs: map[string]any{"success": map[any]any{"r": vx("steps", "a", "outputs", "success", "v")}},
+	}
+	h := &vRunHolder{byG: map[int]*vRun{}}
+	ew, _ := verifPrepareH(t, h)
+	for k := 0; k < 2; k++ {
+		run := newRun()
+		h.cur = run
+		in := verifrt.NondetVal("input")
+		res := verifExecute(ew, run, t, in)
+		verifCheck(t, run, res, verifNorm(in), vCheckOpts{prompt: true})
+		if k == 1 {
+			verifrt.Reach("second-run")
+		}
+	}
+}
+
 // C05 / C01: Execute fails to start one of the steps (a provider may refuse). Whichever step it is, Execute
 // returns the error, and the steps it had already started are closed: nothing of the run stays behind.
 func VerifH_C05_start_fails() {
